@@ -133,6 +133,10 @@ def c18(tier):
     s = run.seed
     defs = F.curated() + F.random_family(1500 + s, sizes(tier, 80, 800), nmax=4, publish=True)
     run.add_jobs(jobs_for(defs, {"pause": 1, "max_nodes": sizes(tier, 1500, 5000)}, s))
+    more = F.curated_items() + F.curated_retry() + F.curated_ctx()
+    run.add_jobs(jobs_for(more, {"pause": 1, "cancel": 1, "max_nodes": sizes(tier, 800, 5000)}, s, tok="visit"))
+    run.add_jobs(jobs_for(F.curated() + F.curated_items()[:9], {"rerun": 1, "rerun_tasks": True, "max_nodes": sizes(tier, 1500, 6000)}, s))
+    run.add_jobs(jobs_for(F.curated(), {"lazy": True, "sample": 3, "max_nodes": sizes(tier, 800, 4000)}, s))
     return run.finish("model_checking",
                       "every pair of consecutive recorded states of every explored history",
                       ASSUME_COMMON)
@@ -265,6 +269,29 @@ def c13(tier):
                       "retry count 1..2 (+ retry command), condition default/completed/succeeded/failed, delay, in "
                       "sequence/branch/join/with-items x outcome sequences x sibling interleavings x pause/cancel",
                       ASSUME_COMMON)
+
+
+@reg("C17")
+def c17(tier):
+    from . import groups as G
+    run = P.Run("C17", tier, ["C17_"])
+    s = run.seed
+    defs = F.curated() + F.random_family(2400 + s, sizes(tier, 50, 500), nmax=4, publish=True)
+    env = {"rerun": 1, "rerun_tasks": True, "max_nodes": sizes(tier, 2500, 10000)}
+    run.add_jobs(jobs_for(defs, env, s, ("yaql", "jinja")))
+    run.add_jobs(jobs_for(F.curated_items() + F.curated_retry() + F.fault_family(("undef",), ("when", "publish", "output")),
+                          dict(env, max_nodes=sizes(tier, 1500, 8000)), s))
+    if tier != "quick":
+        run.add_jobs(jobs_for(F.curated(), dict(env, rerun=2, cancel=1), s))
+    gs, skipped = G.rerun_groups(run.results, sizes(tier, 30, 300), random.Random(s))
+    run.extra["rerun_groups_skipped"] = skipped
+    run.add_groups(gs)
+    return run.finish("model_checking",
+                      "every completed resting history (task failure, item failure, fail command, runtime error, "
+                      "unreachable join, also succeeded/canceled) x default rerun and every single-task rerun (with and "
+                      "without reset_items) x all continuations; reruns whose re-executed actions all succeed are related "
+                      "to the clean scenario's terminal observations (C17_converge)",
+                      ASSUME_COMMON + ["request sets: default and single task; pairs of tasks are not enumerated in quick"])
 
 
 @reg("conform")
